@@ -3,7 +3,7 @@
    OCaml types; Z, N, positive and Flocq's binary_float stay Coq datatypes. *)
 From Coq Require Extraction.
 From Coq Require Import ExtrOcamlBasic.
-From F1 Require Import Base.Prelude Base.F64 Model.Verdict Model.Distribution Model.Staged Model.Jitter Model.Progress Model.TestingT Model.Metrics Base.GoStr Base.GoTime Model.RateParse Model.ConfigFile Base.Fmt Model.Views Model.Gaussian Model.Runner.
+From F1 Require Import Base.Prelude Base.F64 Model.Verdict Model.Distribution Model.Staged Model.Jitter Model.Progress Model.TestingT Model.Metrics Base.GoStr Base.GoTime Model.RateParse Model.ConfigFile Base.Fmt Model.Views Model.Gaussian Model.Runner Model.Pool.
 
 Extraction Language OCaml.
 Extraction "model.ml"
@@ -19,4 +19,5 @@ Extraction "model.ml"
   parse_duration atoi trim_space parse_rate parse_rate_pinned parse_stages calc_constant calc_ramp calc_staged calc_gaussian parse_config c15_run_ok
   render_progress render_result render_exit render_stage log_progress log_result read_progress duration_string fmt_f2
   gauss_run gauss_ok carry_run weight_index
-  runner_trace_ok rexec rinit.
+  runner_trace_ok rexec rinit
+  c02_ok c03_ok c04_ok pexec pinit pterminal.
